@@ -132,6 +132,7 @@ Section History.
   | HMutateS (axis : nat) (v : T)        (* header.x_scale = v : in place *)
   | HMutateO (axis : nat) (v : T)
   | Assign (axis : nat) (vals : list T)  (* las.x = vals : LasData.__setattr__ *)
+  | AssignXYZ (vals : list (list T))     (* las.xyz = array of shape (m, 3), given by its three columns *)
   | RecAssign (axis : nat) (vals : list T) (* las.points.x = vals : ScaleAwarePointRecord.__setattr__ *)
   | ChangeScaling (s o : option arr3)    (* las.change_scaling(scales, offsets) *)
   | Write                                (* las.write(stream) *)
@@ -227,6 +228,25 @@ Section History.
         end
     end.
 
+  (* self.points.offsets = self.header.offsets; self.points.scales = self.header.scales (when the source does it) *)
+  Definition sync (b : bool) (s : st) : st :=
+    if b then mkst (heap s) (h_s s) (h_o s) (h_s s) (h_o s) (ints s) else s.
+
+  (* self.points[axis] = vals on the (possibly synced) record: PackedPointRecord.__setitem__ first appends zero
+     points when the value is longer than the record *)
+  Definition lasdata_assign (b : bool) (s : st) (a : nat) (vals : list T) : st * out :=
+    let s1 := sync b s in
+    assign_rec (mkst (heap s1) (h_s s1) (h_o s1) (r_s s1) (r_o s1) (grow (ints s1) (length vals))) a vals.
+
+  (* self.points[("x", "y", "z")] = value: one axis after the other, an error stops the loop (earlier axes stay assigned) *)
+  Fixpoint assign_axes (s : st) (axes : list nat) (k : nat) (vals : list (list T)) : st * out :=
+    match axes with
+    | [] => (s, ONone)
+    | a :: r =>
+      let '(s1, x) := lasdata_assign false s a (nth k vals []) in
+      match x with ONone => assign_axes s1 r (S k) vals | _ => (s1, x) end
+    end.
+
   Definition step (s : st) (o : op) : st * out :=
     match o with
     | HReplaceS a => let '(s1, i) := alloc s a in (mkst (heap s1) i (h_o s1) (r_s s1) (r_o s1) (ints s1), ONone)
@@ -235,10 +255,8 @@ Section History.
         (mkst (set_at (heap s) (h_s s) (set_at (get (heap s) (h_s s)) a v)) (h_s s) (h_o s) (r_s s) (r_o s) (ints s), ONone)
     | HMutateO a v =>
         (mkst (set_at (heap s) (h_o s) (set_at (get (heap s) (h_o s)) a v)) (h_s s) (h_o s) (r_s s) (r_o s) (ints s), ONone)
-    | Assign a vals =>
-        (* self.points.offsets = self.header.offsets; self.points.scales = self.header.scales; self.points[key] = value;
-           PackedPointRecord.__setitem__ first appends zero points when the value is longer than the record *)
-        assign_rec (mkst (heap s) (h_s s) (h_o s) (h_s s) (h_o s) (grow (ints s) (length vals))) a vals
+    | Assign a vals => lasdata_assign gen_setattr_syncs s a vals     (* LasData.__setattr__ *)
+    | AssignXYZ vals => assign_axes (sync gen_xyz_syncs s) gen_xyz_axes 0 vals   (* LasData.xyz setter *)
     | RecAssign a vals => assign_rec s a vals
     | ChangeScaling ns no =>
         (* points.change_scaling(scales, offsets): None means the record's own array; the header takes the new arrays *)
@@ -274,7 +292,7 @@ End History.
 
 Arguments mkst {T}. Arguments heap {T}. Arguments h_s {T}. Arguments h_o {T}. Arguments r_s {T}. Arguments r_o {T}.
 Arguments ints {T}. Arguments mkfile {T}. Arguments f_scales {T}. Arguments f_offsets {T}. Arguments f_ints {T}.
-Arguments HReplaceS {T}. Arguments HReplaceO {T}. Arguments HMutateS {T}. Arguments HMutateO {T}. Arguments Assign {T}.
+Arguments HReplaceS {T}. Arguments HReplaceO {T}. Arguments HMutateS {T}. Arguments HMutateO {T}. Arguments Assign {T}. Arguments AssignXYZ {T}.
 Arguments RecAssign {T}. Arguments ChangeScaling {T}. Arguments Write {T}. Arguments StreamInto {T}.
 Arguments ONone {T}. Arguments OErr {T}. Arguments OFile {T}.
 
